@@ -425,6 +425,88 @@ pub fn poison_history(variant: usize) -> Option<String> {
     match res { Ok(r) => r, Err(e) => Some(format!("panic: {}", crate::rec_ipm::panic_msg(e))) }
 }
 
+/// Histories whose verdict changes class: a solved problem is made primal infeasible (update_b) or dual infeasible (update_q)
+/// and back; every solve must be a fresh solver's on the same data - verdict, certificate, and objective values (NaN for
+/// infeasibility verdicts, finite again afterwards).
+pub fn verdict_change_history(variant: usize) -> Option<String> {
+    let equil = variant % 2 == 0;
+    let dual = (variant / 2) % 2 == 1;
+    let res = catch_unwind(AssertUnwindSafe(|| -> Option<String> {
+        // min q x  s.t.  x >= 1, x <= ub      (rows: -x + s1 = -1,  x + s2 = ub)
+        let a = Csc::from_dense(&[vec![-3.0], vec![0.5]], 2, 1);
+        let pm = Csc::from_dense(&[vec![0.0]], 1, 1);
+        let mk = |q: f64, b: [f64; 2]| Problem { P: pm.clone(), q: vec![q], A: a.clone(), b: b.to_vec(), cones: vec![ConeSpec::Nonneg(2)],
+                                                  settings: json!({"equilibrate_enable": equil, "presolve_enable": false}), tag: "verdict".into() };
+        let stages: Vec<(f64, [f64; 2])> = if dual { vec![(1.0, [-3.0, 2.0]), (-1.0, [-3.0, 2.0]), (-1.0, [-3.0, 2.0]), (1.0, [-3.0, 2.0])] }
+                                           else { vec![(1.0, [-3.0, 2.0]), (1.0, [-3.0, 0.25]), (1.0, [-3.0, 2.0])] };
+        // (dual variant: the upper bound row is made vacuous by a zero coefficient below, so that q = -1 is unbounded)
+        let a2 = if dual { Csc::from_dense(&[vec![-3.0], vec![0.0]], 2, 1) } else { a.clone() };
+        let build = |q: f64, b: [f64; 2]| { let mut p = mk(q, b); p.A = a2.clone(); p };
+        let p0 = build(stages[0].0, stages[0].1);
+        let (P, A) = (p0.P.to_clarabel(), p0.A.to_clarabel());
+        let mut solver = DefaultSolver::new(&P, &p0.q, &A, &p0.b, &p0.clarabel_cones(), p0.settings());
+        for (k, (q, b)) in stages.iter().enumerate() {
+            if k > 0 {
+                if res_name(solver.update_q(&vec![*q])) != "Ok" || res_name(solver.update_b(&b.to_vec())) != "Ok" { return None; }
+            }
+            solver.solve();
+            let pf = build(*q, *b);
+            let mut fresh = DefaultSolver::new(&P, &pf.q, &A, &pf.b, &pf.clarabel_cones(), pf.settings());
+            fresh.solve();
+            let (s1, s2) = (&solver.solution, &fresh.solution);
+            // the premise of this history: the middle stage is an infeasibility verdict, the others are solved
+            let want_inf = k == 1 || (dual && k == 2);
+            let is_inf = matches!(s2.status, SolverStatus::PrimalInfeasible | SolverStatus::DualInfeasible);
+            if want_inf != is_inf { return Some(format!("verdict-change history: premise failed at stage {} (a fresh solver ends {:?})", k, s2.status)); }
+            let same = s1.status == s2.status && s1.iterations == s2.iterations
+                && (s1.obj_val.to_bits() == s2.obj_val.to_bits() || (s1.obj_val.is_nan() && s2.obj_val.is_nan()))
+                && (s1.obj_val_dual.to_bits() == s2.obj_val_dual.to_bits() || (s1.obj_val_dual.is_nan() && s2.obj_val_dual.is_nan()))
+                && s1.x.iter().zip(&s2.x).all(|(a, b)| a.to_bits() == b.to_bits())
+                && s1.z.iter().zip(&s2.z).all(|(a, b)| a.to_bits() == b.to_bits());
+            if !same {
+                return Some(format!("verdict-change history ({} infeasible, equilibration {}), stage {}: the updated solver ends {:?} after {} iterations with objective {} / {} but a solver built on the same data ends {:?} after {} with {} / {}",
+                                    if dual { "dual" } else { "primal" }, equil, k, s1.status, s1.iterations, s1.obj_val, s1.obj_val_dual, s2.status, s2.iterations, s2.obj_val, s2.obj_val_dual));
+            }
+        }
+        None
+    }));
+    match res { Ok(r) => r, Err(e) => Some(format!("panic: {}", crate::rec_ipm::panic_msg(e))) }
+}
+
+/// Re-solve histories on planted problems with the cone types the seed problems lack (generalised power cones with several
+/// tail entries, exponential + power, a large second-order cone): solve, write the same right-hand side back through the
+/// update API, solve again - bit for bit the first solve (equilibration off: identical internal data).
+pub fn resolve_history(variant: usize) -> Option<String> {
+    use rand::SeedableRng;
+    let mut rng = rand::rngs::StdRng::seed_from_u64(0x5e50 + variant as u64);
+    let lists: Vec<Vec<ConeSpec>> = vec![
+        vec![ConeSpec::GenPow(vec![0.3, 0.7], 2)], vec![ConeSpec::GenPow(vec![0.2, 0.3, 0.5], 3), ConeSpec::Nonneg(2)],
+        vec![ConeSpec::Exp, ConeSpec::Pow(0.4)], vec![ConeSpec::Soc(6), ConeSpec::Nonneg(1)], vec![ConeSpec::GenPow(vec![0.5, 0.5], 2), ConeSpec::Exp]];
+    let cones = lists[variant % lists.len()].clone();
+    let o = crate::gen::GenOpts { nmax: 3, ..Default::default() };
+    let mut p = crate::gen::planted_with_cones(&mut rng, &o, 2 + variant % 2, cones);
+    p.settings = json!({"equilibrate_enable": false, "presolve_enable": false});
+    let res = catch_unwind(AssertUnwindSafe(|| -> Option<String> {
+        let (P, A) = (p.P.to_clarabel(), p.A.to_clarabel());
+        let mut solver = DefaultSolver::new(&P, &p.q, &A, &p.b, &p.clarabel_cones(), p.settings());
+        if !solver.is_data_update_allowed() { return None; }
+        solver.solve();
+        let first = (solver.solution.status, solver.solution.iterations, solver.solution.x.clone(), solver.solution.z.clone(), solver.solution.obj_val);
+        if res_name(solver.update_b(&p.b)) != "Ok" { return None; }
+        solver.solve();
+        let s1 = &solver.solution;
+        let same = s1.status == first.0 && s1.iterations == first.1 && (s1.obj_val.to_bits() == first.4.to_bits() || (s1.obj_val.is_nan() && first.4.is_nan()))
+            && s1.x.iter().zip(&first.2).all(|(a, b)| a.to_bits() == b.to_bits() || (a.is_nan() && b.is_nan()))
+            && s1.z.iter().zip(&first.3).all(|(a, b)| a.to_bits() == b.to_bits() || (a.is_nan() && b.is_nan()));
+        if !same {
+            return Some(format!("re-solve history on cones {:?}: after update_b with the same data the solver ends {:?} after {} iterations (obj {}) but its first solve ended {:?} after {} (obj {})",
+                                p.cones, s1.status, s1.iterations, s1.obj_val, first.0, first.1, first.4));
+        }
+        None
+    }));
+    match res { Ok(r) => r, Err(e) => Some(format!("panic: {}", crate::rec_ipm::panic_msg(e))) }
+}
+
 /// A history in which wall-clock time matters: a finite time_limit, and every solve is delayed (scripted sleep at
 /// iteration 1) by 40% of the limit.  Each solve alone stays far inside the limit, so every solve of the updated
 /// solver must end like a fresh solver's (which is delayed in the same way); only time charged from *earlier*
@@ -521,6 +603,18 @@ pub fn replay_file(path: &str, out: &str, seed: u64, every: usize) -> Value {
             if let Some(m) = poison_history(v as usize) { bad.push(json!({"behaviour": b, "variant": v, "mismatch": m, "class": "solve_after_poisoned_solve"})); }
             continue;
         }
+        if let Some(v) = b.get("verdict").and_then(|x| x.as_u64()) {
+            n += 1;
+            timed_done = true;
+            if let Some(m) = verdict_change_history(v as usize) { bad.push(json!({"behaviour": b, "variant": v, "mismatch": m, "class": "verdict_change_history"})); }
+            continue;
+        }
+        if let Some(v) = b.get("resolve").and_then(|x| x.as_u64()) {
+            n += 1;
+            timed_done = true;
+            if let Some(m) = resolve_history(v as usize) { bad.push(json!({"behaviour": b, "variant": v, "mismatch": m, "class": "resolve_history"})); }
+            continue;
+        }
         if b.get("timed").is_some() {
             n += 1;
             timed_done = true;
@@ -562,6 +656,24 @@ pub fn replay_file(path: &str, out: &str, seed: u64, every: usize) -> Value {
             n += 1;
             if let Some(m) = poison_history(v) {
                 bad.push(json!({"behaviour": {"blocked": "none", "hist": [], "poison": v}, "variant": v, "mismatch": m, "class": format!("solve_after_poisoned_solve_{}", (v / 4) % 7)}));
+            }
+        }
+    }
+    // re-solve histories on the cone types the seed problems lack
+    if !timed_done {
+        for v in 0..30usize {
+            n += 1;
+            if let Some(m) = resolve_history(v) {
+                bad.push(json!({"behaviour": {"blocked": "none", "hist": [], "resolve": v}, "variant": v, "mismatch": m, "class": format!("resolve_history_{}", v % 5)}));
+            }
+        }
+    }
+    // histories whose verdict changes class
+    if !timed_done {
+        for v in 0..4usize {
+            n += 1;
+            if let Some(m) = verdict_change_history(v) {
+                bad.push(json!({"behaviour": {"blocked": "none", "hist": [], "verdict": v}, "variant": v, "mismatch": m, "class": "verdict_change_history"}));
             }
         }
     }
